@@ -36,6 +36,13 @@ SameGraph(post, rpost, exp) ==
          /\ (p.k = "field" => /\ p.mesh = e.mesh /\ p.nv = e.nv /\ p.shape = e.shape
                               /\ Len(p.arr) = Len(e.arr) /\ Len(p.valid) = Len(e.valid)
                               /\ \A k \in DOMAIN p.arr : Len(p.arr[k]) = p.nv)
+KindCount(h, kind) == Cardinality({o \in DOMAIN h : h[o].k = kind})
+LessSharing(post, rpost, exp) ==
+   /\ DOMAIN rpost = DOMAIN exp.roots
+   /\ KindCount(post, "field") = KindCount(exp.heap, "field")
+   /\ KindCount(post, "mesh") >= KindCount(exp.heap, "mesh")
+   /\ KindCount(post, "region") >= KindCount(exp.heap, "region")
+   /\ Cardinality(DOMAIN post) > Cardinality(DOMAIN exp.heap)
 AllObj(post, exp, P(_, _)) == \A o \in DOMAIN post : P(post[o], exp.heap[o])
 (* the state adopted after the step: the observed one; the model-only flags (values / mapping constrained) from the expectation *)
 Adopt(post, exp, known) ==
@@ -60,7 +67,11 @@ TStep ==
    /\ (IF inm THEN TRUE ELSE PrintT(<<"OUTSIDE", Traces[tid].id, l + 1, c0.op>>))     \* calls the model says nothing about are counted
    /\ Verd(inm => (exp.outcome = Ev.outcome), IF ok THEN "DF_Rejects" ELSE "DF_Accepts")
    /\ Verd(~ok => (Adopt(post, [heap |-> heap], TRUE) = heap /\ rpost = roots), "DF_RejectUnchanged")
-   /\ Verd(both => graph, "DF_Sharing")
+   (* the library may share LESS than the model assumes (a result with its own mesh / region object): no property forbids  *)
+   (* that - it is counted, the observed graph adopted.  Any other difference of the object graph is a verdict.           *)
+   /\ LET less == both /\ ~graph /\ LessSharing(post, rpost, exp) IN
+         /\ (IF less THEN PrintT(<<"LESS-SHARING", Traces[tid].id, l + 1, c0.op>>) ELSE TRUE)
+         /\ Verd(both => (graph \/ less), "DF_Sharing")
    (* conformance with the step function, aspect by aspect *)
    /\ Verd(graph => AllObj(post, exp, LAMBDA p, e : p.k = "region" => p.lo = e.lo /\ p.hi = e.hi), "DF_Geometry")
    /\ Verd(graph => AllObj(post, exp, LAMBDA p, e : p.k = "region" => p.units = e.units /\ p.dims = e.dims), "DF_UnitsDims")
